@@ -406,3 +406,73 @@ func H_c07_multicodebig() {
 	rt.Check(len(gs) == 2, "MulticodeDecodeMultiple: wrong number of graphs")
 	rt.Reach("end")
 }
+
+// c07G6Sym: graph6 with ALL edge bits symbolic at an order that needs the 4-byte size
+// header (needs guarded merging: no forks on edge bits).  The expected bytes are
+// stated arithmetically from formats.txt: byte t = 63 + sum over q<6 of bit[6t+q] << (5-q),
+// with the bits in the order (0,1),(0,2),(1,2),(0,3),... which is also the order of Edges.
+func c07G6Sym(n int) {
+	ne := n * (n - 1) / 2
+	e := make([]byte, ne)
+	for k := range e {
+		e[k] = rt.Bit("e")
+	}
+	deg := make([]int, n)
+	g := &DenseGraph{NumberOfVertices: n, NumberOfEdges: 0, DegreeSequence: deg, Edges: e}
+	s := Graph6Encode(g)
+	hdr := refN(n)
+	nb := (ne + 5) / 6
+	rt.Check(len(s) == len(hdr)+nb, "graph6: wrong length")
+	if len(s) != len(hdr)+nb {
+		return
+	}
+	for i := range hdr {
+		rt.Check(s[i] == hdr[i], "graph6: size header differs from N(n)")
+	}
+	for t := 0; t < nb; t++ {
+		var want byte = 63
+		for q := 0; q < 6; q++ {
+			if 6*t+q < ne {
+				want += e[6*t+q] << uint(5-q)
+			}
+		}
+		rt.Check(s[len(hdr)+t] == want, "graph6: data byte differs from the format definition")
+	}
+	d, err := Graph6Decode(s)
+	rt.Check(err == nil, "Graph6Decode rejects Graph6Encode output")
+	if err != nil {
+		return
+	}
+	rt.Check(d.N() == n && len(d.Edges) == ne, "graph6 round trip: wrong order")
+	if len(d.Edges) != ne {
+		return
+	}
+	for k := 0; k < ne; k++ {
+		rt.Check((d.Edges[k] > 0) == (e[k] > 0), "graph6 round trip: edge differs")
+	}
+	// cached degrees of the decoded graph agree with the bits (vertex 0, a middle one, the last);
+	// only for small orders: at n = 63 this is the equivalence of two 62-input adders, which the
+	// solvers do not finish in 60 s (NewDense's counts are C06's subject)
+	for _, v := range []int{0, n / 2, n - 1} {
+		if n > 16 {
+			break
+		}
+		want := 0
+		for u := 0; u < n; u++ {
+			if u == v {
+				continue
+			}
+			a, b := u, v
+			if a > b {
+				a, b = b, a
+			}
+			want += int(e[b*(b-1)/2+a])
+		}
+		rt.Check(d.DegreeSequence[v] == want, "graph6 round trip: cached degree differs")
+	}
+	rt.Reach("end")
+}
+
+func H_c07_g6sym63() { c07G6Sym(63) }
+func H_c07_g6sym64() { c07G6Sym(64) }
+func H_c07_g6sym9()  { c07G6Sym(9) }
